@@ -35,7 +35,7 @@ def main():
         })
     man = {
         "version": 1,
-        "setup_cmd": "PYTHONPATH=/repo /venv/bin/python -W ignore harness/extract_tables.py && cd lean && lake build DAVerif driver",
+        "setup_cmd": "PYTHONPATH=/repo /venv/bin/python -W ignore harness/extract_tables.py && PYTHONPATH=/repo /venv/bin/python -W ignore harness/extract_expr_tables.py && cd lean && lake build DAVerif driver",
         "hooks": {
             "guard": "WINVECTOR_DATA_ALGEBRA_VERIF",
             "enable": "bin/check exports WINVECTOR_DATA_ALGEBRA_VERIF=1 (no source hook is needed so far; the harness "
